@@ -29,6 +29,22 @@ CLAIMED = {
         "(oracle), SciPy's solvers (event model), floating-point norm. Known finding: Krylov with "
         "maxit=0 reports success (KNOWN_FINDINGS.txt).",
    technique='Lean 4 invariant over the cycle loop / event fold + trace correspondence; independent residual oracle'),
+ 'C13': dict(
+   text="Proof (Lean 4) about the model NoiseM of Survey's noise bookkeeping and of the data "
+        "misfit: std^2 = nf^2 + (re |d|)^2, explicit value wins, none if nothing is set; add_noise "
+        "(any cuts, target, noise) never changes noise floor / relative error / explicit std and "
+        "leaves 'observed' alone when adding elsewhere; a setter changes only its parameter and "
+        "rejects non-positive values; a selection is exactly the chosen sub-cube (data, explicit "
+        "std and array-valued parameters alike, in the requested order), scalar parameters "
+        "unchanged; the misfit is 0.5 sum |r|^2/std^2 over finite entries and invariant under any "
+        "permutation of the sources (List.Perm). Tie to code: random operation sequences on real "
+        "Survey objects (5 parameter forms, add_noise variants, permuted selections, remove_empty, "
+        "copy, dict round trip), every observable compared after every step; Simulation.misfit on "
+        "layered simulations incl. histories changing the NaN pattern.",
+   design='§4 C13',
+   note=TB % 'c13' + "Modelled not verified: xarray selection/copy semantics (compared), sqrt "
+        "rounding (std compared as squares within 8 ulp), random_noise (stubbed: noise is data).",
+   technique='Lean 4 frame/sub-cube/permutation theorems on a state-machine model + operation-sequence trace correspondence'),
  'C02': dict(
    text="Proof (Lean 4, over an arbitrary field K, all grid sizes/widths/coefficients/fields): the "
         "model Emg.amat of core.amat_x equals on every interior edge the assembled operator "
